@@ -109,7 +109,7 @@ static void c09(void) {
     mc_rule("C09: each input is compressed into a buffer of exactly compress_bound bytes that ends at (and, in a second placement, starts after) a PROT_NONE page: "
             "status OK, reported length <= bound; the reported bytes are decompressed into exactly len(x) guard-paged bytes and compared; capacities {0,1,bound-1,bound+1} "
             "must be refused or handled correctly. Inputs: all strings over {a,b} / {a,b,c} up to a length, every length 0..300 of four structured families, "
-            "16-bit hash-position wrap-around families beyond 64 KiB, a de Bruijn B(16,4) sequence and rotations, MiB-sized concatenations. "
+            "16-bit hash-position wrap-around families beyond 64 KiB, a de Bruijn B(16,4) sequence and rotations, every literal-run length 4..1100 (thorough 4200) followed by a match of 9 lengths and a literal tail, MiB-sized concatenations. "
             "Non-trivial = input length >= 4 (a match is possible); distinct by (family, length, code, codec configuration).");
     mc_arena_init(&A_src, MAXIN); mc_arena_init(&A_dst, MAXIN + MAXIN / 4 + 4096); mc_arena_init(&A_cin, MAXIN + MAXIN / 4 + 4096); mc_arena_init(&A_out, MAXIN);
     g_big = malloc(MAXIN);
@@ -194,6 +194,20 @@ static void c09(void) {
                 mc_case_key(mc_mix(0x97, ((uint64_t)rot << 32) | (uint64_t)ext)); mc_nontrivial();
                 run_all(g_big, n, rot == 0 ? CORE : FASTC, rot == 0 ? 8 : 2, rot == 0, false);
             }
+        /* L incompressible literals (no repeated 4-gram), then a repeat of the first m bytes, then 12 fresh literals: every literal-run
+         * length (length-extension bytes 15, 15+255, 15+510, ...) x match lengths around the match-length extension boundaries */
+        mc_stage("c09.literal-run-then-match.every-run-length");
+        { static const int ML[] = { 4, 5, 8, 18, 19, 20, 273, 274, 275 }; int maxL = mc_thorough() ? 4200 : 1100;
+          for (int L = 4; L <= maxL; L++) for (int mi = 0; mi < 9; mi++) {
+              int m = ML[mi]; if (m > L) continue;
+              if (!mc_next()) continue;
+              size_t n = 0; for (int i = 0; i < L; i++) g_big[n++] = (uint8_t)(dbs[i] * 16 + 3);
+              for (int i = 0; i < m; i++) g_big[n++] = g_big[i];
+              for (int i = 0; i < 12; i++) g_big[n++] = (uint8_t)(dbs[30000 + i] * 16 + 5);
+              mc_desc("c09:literals=%d;match=%d;tail=12", L, m); mc_feature("literal-run-then-match"); mc_case_key(mc_mix(0x99, ((uint64_t)L << 16) | (uint64_t)m)); mc_nontrivial();
+              run_all(g_big, n, FASTC, 2, false, false);
+          } }
+        mc_stage("c09.large");
         int nbig = mc_thorough() ? 8 : 3;
         for (int k = 0; k < nbig; k++) {
             if (!mc_next()) continue;
